@@ -28,6 +28,7 @@ import (
 	"net/url"
 	"os"
 	"path/filepath"
+	"runtime/pprof"
 	"sort"
 	"strings"
 	"sync"
@@ -100,7 +101,9 @@ type Prog struct {
 
 type Script struct {
 	BodyLen int `json:"bodyLen"`
-	I       int `json:"i"` // provenance origin of the response body
+	I       int `json:"i"`    // provenance origin of the response body
+	Pad     int `json:"pad"`  // length of the X-Pad header value (pattern bytes of origin PadI)
+	PadI    int `json:"padI"`
 }
 
 type Exchange struct {
@@ -128,6 +131,7 @@ type Case struct {
 	Cfg    Cfg         `json:"cfg"`
 	Xs     []*Exchange `json:"xs"`
 	Cuts   [][]int     `json:"cuts"` // per exchange: fragment sizes of the response delivery ([]: whole)
+	CutX   int         `json:"cutX"` // exchange whose response the -cuts expansion fragments (0: the last one)
 	CutTag string      `json:"cutTag"`
 	Tag    string      `json:"tag"`
 	Ev     string      `json:"ev,omitempty"`
@@ -181,6 +185,8 @@ type worker struct {
 	cur     *Case
 	x       int // exchange in progress (1-based)
 	conns   []*peerConn
+	ncs     []network.Conn
+	used    int // scripted connection the exchange in progress wrote its request to (0: none)
 	origins []vnet.Origin
 	// hertz-side decode of the captured request
 	hz []vtrace.Rec
@@ -192,12 +198,16 @@ func (w *worker) ev(name string, r map[string]interface{}) { w.tr.Emit(name, vtr
 
 type dialer struct{ w *worker }
 
+// netConns[i] is the production buffered connection wrapped around scripted connection i+1
+
 func (d *dialer) DialConnection(nw, address string, timeout time.Duration, tlsConfig *tls.Config) (network.Conn, error) {
 	w := d.w
 	pc := &peerConn{id: len(w.conns) + 1, w: w}
 	w.conns = append(w.conns, pc)
 	w.ev("Dial", map[string]interface{}{"conn": pc.id, "addr": address, "x": w.x})
-	return standard.NewConnForVerif(pc, 4096), nil
+	nc := standard.NewConnForVerif(pc, 4096)
+	w.ncs = append(w.ncs, nc)
+	return nc, nil
 }
 
 func (d *dialer) DialTimeout(nw, address string, timeout time.Duration, tlsConfig *tls.Config) (net.Conn, error) {
@@ -210,16 +220,29 @@ func (d *dialer) AddTLS(conn network.Conn, tlsConfig *tls.Config) (network.Conn,
 
 // ---------------------------------------------------------------- the peer: decode the request, reply
 
-func fieldsOf(add func(f func(k, v string))) []map[string]string {
+// fieldsOf lists header fields as {name (lower case), value}; framing / connection fields are left out; a long value
+// is reported by provenance ("<run I A B>") or by length.
+func (w *worker) fieldsOf(add func(f func(k, v string))) []map[string]string {
 	out := []map[string]string{}
 	add(func(k, v string) {
 		n := strings.ToLower(k)
 		if controlNames[n] {
 			return
 		}
-		out = append(out, map[string]string{"name": n, "value": collapse(v)})
+		out = append(out, map[string]string{"name": n, "value": w.tagLong(collapse(v))})
 	})
 	return out
+}
+
+func (w *worker) tagLong(v string) string {
+	if len(v) <= 200 {
+		return v
+	}
+	rs := vnet.Runs([]byte(v), w.origins)
+	if len(rs) == 1 && rs[0].I != 0 {
+		return fmt.Sprintf("<run %d %d %d>", rs[0].I, rs[0].A, rs[0].B)
+	}
+	return fmt.Sprintf("<%d bytes>", len(v))
 }
 
 func short(b []byte) string {
@@ -268,7 +291,7 @@ func (w *worker) decodeNetHTTP(x int, raw []byte) {
 		return
 	}
 	extra := src.Len() + br.Buffered()
-	fields := fieldsOf(func(f func(k, v string)) {
+	fields := w.fieldsOf(func(f func(k, v string)) {
 		keys := make([]string, 0, len(r.Header))
 		for k := range r.Header {
 			keys = append(keys, k)
@@ -284,6 +307,9 @@ func (w *worker) decodeNetHTTP(x int, raw []byte) {
 		"bodyLen": len(body), "bodyRuns": w.runs(body, w.progBodyOrigin(x)), "close": r.Close, "extra": extra,
 		"chunked": len(r.TransferEncoding) > 0, "form": []map[string]string{}, "parts": []map[string]interface{}{}, "formErr": ""}
 	mt, params, _ := mime.ParseMediaType(r.Header.Get("Content-Type"))
+	if len(body) > 2048 && mt == "application/x-www-form-urlencoded" {
+		mt = "" // only small bodies are decoded as forms (a large pattern body under the default content type is not a form)
+	}
 	switch mt {
 	case "application/x-www-form-urlencoded":
 		vals, err := url.ParseQuery(string(body))
@@ -325,7 +351,7 @@ func (w *worker) progBodyOrigin(x int) int {
 // the recording handler of the real hertz server
 func (w *worker) handle(ctx *app.RequestContext) {
 	x := w.x
-	fields := fieldsOf(func(f func(k, v string)) {
+	fields := w.fieldsOf(func(f func(k, v string)) {
 		ctx.Request.Header.VisitAll(func(k, v []byte) { f(string(k), string(v)) })
 	})
 	body := ctx.Request.Body()
@@ -335,6 +361,9 @@ func (w *worker) handle(ctx *app.RequestContext) {
 		"form": []map[string]string{}, "parts": []map[string]interface{}{}, "formErr": ""}
 	ct := string(ctx.Request.Header.ContentType())
 	mt, _, _ := mime.ParseMediaType(ct)
+	if len(body) > 2048 && mt == "application/x-www-form-urlencoded" {
+		mt = ""
+	}
 	switch mt {
 	case "application/x-www-form-urlencoded":
 		vals := map[string][]string{}
@@ -438,6 +467,7 @@ func rawHead(raw []byte) (start string, lines []map[string]string) {
 // onRequest is called by a scripted connection when the client, having written req, starts to read.
 func (w *worker) onRequest(c *peerConn, req []byte) (wire []byte, cuts []int, closeAfter bool) {
 	x := w.x
+	w.used = c.id
 	start, lines := rawHead(req)
 	w.ev("Sent", map[string]interface{}{"x": x, "conn": c.id, "n": len(req), "start": start, "lines": lines})
 	w.decodeNetHTTP(x, req)
@@ -527,6 +557,7 @@ func (w *worker) run(c *Case) {
 	w.cur = c
 	w.x = 0
 	w.conns = w.conns[:0]
+	w.ncs = w.ncs[:0]
 	w.origins = w.origins[:0]
 	for len(c.Cuts) < len(c.Xs) {
 		c.Cuts = append(c.Cuts, []int{})
@@ -551,9 +582,12 @@ func (w *worker) run(c *Case) {
 		if e.script.BodyLen > 0 {
 			w.origins = append(w.origins, vnet.Origin{I: e.script.I, Len: e.script.BodyLen})
 		}
-		echo = append(echo, map[string]interface{}{"prog": e.Prog, "script": e.Script, "headEnd": e.HeadEnd, "wireLen": e.WireLen, "peerClose": e.PeerClose})
+		if e.script.Pad > 0 {
+			w.origins = append(w.origins, vnet.Origin{I: e.script.PadI, Len: e.script.Pad})
+		}
+		echo = append(echo, map[string]interface{}{"prog": e.Prog, "script": e.Script, "wire": e.Wire, "headEnd": e.HeadEnd, "wireLen": e.WireLen, "peerClose": e.PeerClose})
 	}
-	tr.Emit("Case", vtrace.Rec{"id": c.ID, "cfg": c.Cfg, "xs": echo, "cuts": c.Cuts, "cutTag": c.CutTag, "tag": c.Tag})
+	tr.Emit("Case", vtrace.Rec{"id": c.ID, "cfg": c.Cfg, "xs": echo, "cuts": c.Cuts, "cutTag": c.CutTag, "tag": c.Tag, "cutX": c.CutX})
 
 	opts := []config.ClientOption{client.WithDialer(&dialer{w}), client.WithResponseBodyStream(c.Cfg.Stream),
 		client.WithDisableHeaderNamesNormalizing(c.Cfg.NoNormHdr), client.WithDisablePathNormalizing(c.Cfg.NoNormPath),
@@ -589,16 +623,25 @@ func (w *worker) exchange(cl *client.Client, c *Case, e *Exchange) {
 	}()
 	req := w.buildRequest(&e.prog, &c.Cfg)
 	resp := protocol.AcquireResponse()
+	w.used = 0
 	err := cl.Do(context.Background(), req, resp)
-	rec := map[string]interface{}{"x": x, "err": errClass(err), "errText": "", "status": 0, "fields": []map[string]string{}, "bodyLen": 0,
-		"bodyRuns": [][]int{}, "trailers": []map[string]string{}, "streamed": false, "readErr": "", "reads": 0}
+	rec := map[string]interface{}{"x": x, "err": errClass(err), "errText": "", "status": 0, "fields": []map[string]string{}, "names": []string{},
+		"bodyLen": 0, "bodyRuns": [][]int{}, "trailers": []map[string]string{}, "streamed": false, "readErr": "", "reads": 0, "buffered": -1}
+	// bytes the client has read from the socket of the connection it used but not consumed (-1: connection closed)
+	buffered := func() int {
+		if w.used >= 1 && w.used <= len(w.conns) && !w.conns[w.used-1].isClosed() {
+			return w.ncs[w.used-1].Len()
+		}
+		return -1
+	}
 	if err != nil {
 		rec["errText"] = err.Error()
+		rec["buffered"] = buffered()
 		w.ev("Returned", rec)
 		return
 	}
 	rec["status"] = resp.StatusCode()
-	rec["fields"] = fieldsOf(func(f func(k, v string)) {
+	rec["fields"] = w.fieldsOf(func(f func(k, v string)) {
 		resp.Header.VisitAll(func(k, v []byte) { f(string(k), string(v)) })
 	})
 	// names as returned (case matters when header-name normalisation is off)
@@ -651,6 +694,7 @@ func (w *worker) exchange(cl *client.Client, c *Case, e *Exchange) {
 			rec["closeErr"] = cerr.Error()
 		}
 	}
+	rec["buffered"] = buffered()
 	w.ev("Returned", rec)
 	protocol.ReleaseRequest(req)
 	protocol.ReleaseResponse(resp)
@@ -745,10 +789,18 @@ func main() {
 	casesF := flag.String("cases", "", "ndjson case file")
 	out := flag.String("out", "", "output directory")
 	chunks := flag.Int("chunks", 16, "trace files / workers")
-	cutKinds := flag.String("cuts", "", "expand every case by fragmentations of the LAST exchange's response: whole,bytewise,randNxP,bounds,every")
+	cutKinds := flag.String("cuts", "", "expand every case by fragmentations of the response of exchange cutX: whole,bytewise,randNxP,bounds,every")
 	seed := flag.Int64("seed", 1, "seed")
 	maxWire := flag.Int("maxwire", 400, "skip bytewise/every for response wires longer than this")
+	cpuprof := flag.String("cpuprofile", "", "write a CPU profile (development aid)")
 	flag.Parse()
+	if *cpuprof != "" {
+		pf, err := os.Create(*cpuprof)
+		if err == nil {
+			pprof.StartCPUProfile(pf)
+			defer pprof.StopCPUProfile()
+		}
+	}
 	f, err := os.Open(*casesF)
 	if err != nil {
 		fmt.Fprintln(os.Stderr, err)
@@ -768,8 +820,11 @@ func main() {
 			all = append(all, c)
 			continue
 		}
-		last := c.Xs[len(c.Xs)-1]
-		cutsets, tags := cutsFor(last, strings.Split(*cutKinds, ","), rng, *maxWire)
+		cx := c.CutX
+		if cx < 1 || cx > len(c.Xs) {
+			cx = len(c.Xs)
+		}
+		cutsets, tags := cutsFor(c.Xs[cx-1], strings.Split(*cutKinds, ","), rng, *maxWire)
 		for ci, cs := range cutsets {
 			cc := *c
 			cc.Xs = make([]*Exchange, len(c.Xs))
@@ -781,8 +836,7 @@ func main() {
 			for i := range cc.Cuts {
 				cc.Cuts[i] = []int{}
 			}
-			// earlier exchanges of a sequence get the same relative treatment when it is a seeded k-way cut
-			cc.Cuts[len(c.Xs)-1] = cs
+			cc.Cuts[cx-1] = cs
 			cc.CutTag = tags[ci]
 			all = append(all, &cc)
 		}
